@@ -263,6 +263,7 @@ def jobs(tier):
 
     for name in ("solids+opacity", "fill with its own alpha channel + shape opacity", "palette variable whose default has an alpha channel + shape opacity", "currentColor and palette variables"):
         js.append(Job(f"source[{name}|user identity]", C01_source.job_source, source=name, user="identity"))
+    js.append(Job("source[solids+opacity|user mirror]", C01_source.job_source, source="solids+opacity", user="mirror"))
     return js
 
 
